@@ -6,6 +6,6 @@ import sys,json
 t=sys.stdin.read()
 try:
   j=json.loads(t[t.index('{'):t.rindex('}')+1]); print(j['Paths'], j['PathKinds'], j['Reached'], [x[:300] for x in (j['Inconcl'] or [])], round(j['Seconds'],1));
-  for v in j['Violations'] or []: print('  VIOL', v['tag'], v['inputs'], (v.get('where') or '')[:300])
+  for v in (j['Violations'] or [])[:3]: print('  VIOL', v['tag'], v['inputs'], (v.get('where') or '')[:300])
 except Exception as e: print('ERR', e, t[-2000:])
 "; done
